@@ -210,6 +210,7 @@ STRIP = {"stop_gradient", "asarray", "array", "squeeze", "astype", "float", "int
 NONDIFF = {"argmax", "argmin", "argsort", "top_k", "floor", "ceil", "round", "sign", "greater", "less", "equal",
            "searchsorted", "nonzero", "arange", "shape", "len", "zeros_like", "ones_like", "isfinite", "isnan"}
 LINEAR = {"mean", "sum"}
+ELEMENTWISE_UNARY = {"tanh", "exp", "log", "log1p", "sqrt", "abs", "absolute", "square", "negative", "sigmoid", "softplus", "relu", "sin", "cos", "sign", "floor", "ceil", "round", "asarray", "array", "copy"}
 COMMUTATIVE = {"minimum", "maximum", "add", "multiply", "logical_and", "logical_or"}
 
 
@@ -550,6 +551,12 @@ class NF:
             if "batch" in ba.lower():
                 i = self.field_order.index(e.attr)
                 return self._project(base, (i,))
+        if e.attr == "shape" and ba is not None:
+            # the shape of an element-wise function of one array is the shape of that array
+            m_ = self.meta.get(ba, {})
+            if m_.get("fn", "").split(".")[-1] in ELEMENTWISE_UNARY and len(m_.get("args", [])) == 1 and not m_.get("kws"):
+                inner = m_["args"][0]
+                return self._reg(Poly.atom(f"{inner.canon()}.shape", inner.deps, frozenset()), "attr", [inner])
         if e.attr == "T":
             return Poly.atom(f"T({base.canon()})", base.deps, base.gdeps)
         return self._reg(Poly.atom(f"{base.canon()}.{e.attr}", base.deps, base.gdeps if e.attr not in ("shape", "ndim", "dtype", "size") else frozenset()), "attr", [base])
@@ -564,6 +571,18 @@ class NF:
             idx0, _ = self._slice(e.slice, sc, at, depth)
             if f"{base.canon()}[{idx0}]" in sc.store:
                 return sc.store[f"{base.canon()}[{idx0}]"]
+        if isinstance(e.slice, ast.Constant) and e.slice.value == 0 and (base.single_atom() or "").endswith(".shape"):
+            # length of a freshly built 1-d array: linspace(a, b, n).shape[0] == n, arange(n).shape[0] == n, ones(n).shape[0] == n
+            ms = self.meta.get(base.single_atom(), {})
+            src = ms.get("args", [None])[0] if ms.get("fn") == "attr" else None
+            mm = self.meta.get(src.single_atom() or "", {}) if src is not None else {}
+            f_ = mm.get("fn", "").split(".")[-1]
+            if f_ == "linspace" and len(mm.get("args", [])) >= 3:
+                return mm["args"][2]
+            if f_ == "linspace" and "num" in mm.get("kws", {}):
+                return mm["kws"]["num"]
+            if f_ in ("arange", "ones", "zeros", "empty") and len(mm.get("args", [])) == 1 and mm["args"][0].elems is None and not mm.get("kws"):
+                return mm["args"][0]
         if isinstance(e.slice, ast.Constant) and isinstance(e.slice.value, int):
             return self._project(base, (e.slice.value,))
         idx, d = self._slice(e.slice, sc, at, depth)
@@ -755,6 +774,14 @@ class NF:
                 if isinstance(root_, ast.Name) and not sc.cfg.defs_of(ds[0].node, root_.id):
                     e2 = ast.copy_location(ast.Call(func=tgt, args=e.args, keywords=e.keywords), e)
                     return self._e_Call(e2, sc, at, depth + 1)
+        # 0b. functools.reduce(f, (a, b, c)) with a literal sequence is the left fold f(f(a, b), c)
+        if isinstance(f, (ast.Name, ast.Attribute)) and self.repo.resolve_expr(sc.mi, f) == "functools.reduce" and len(e.args) in (2, 3) and not e.keywords \
+                and isinstance(e.args[1], (ast.Tuple, ast.List)) and e.args[1].elts and not any(isinstance(x, ast.Starred) for x in e.args[1].elts):
+            items = ([e.args[2]] if len(e.args) == 3 else []) + list(e.args[1].elts)
+            acc = items[0]
+            for it_ in items[1:]:
+                acc = ast.copy_location(ast.Call(func=e.args[0], args=[acc, it_], keywords=[]), e)
+            return self.poly(acc, sc, at, depth + 1)
         # 1. library function by resolved name (jnp.mean, jax.lax.stop_gradient, optax.squared_error ...)
         op = None
         recv = None
@@ -822,6 +849,21 @@ class NF:
             args, kws = list(args), dict(kws)
             while len(args) < len(sig) and sig[len(args)] in kws:
                 args.append(kws.pop(sig[len(args)]))
+        if short_ in ("argmax", "argmin", "max", "min", "sum", "mean", "prod", "any", "all") and "axis" in kws and kws["axis"].canon() == "None":
+            kws = {k: v for k, v in kws.items() if k != "axis"}       # axis=None is the default (reduce over everything)
+        if short_ == "clip" and len(args) + len(kws) == 2:
+            # one-sided clip: clip(x, min=a) == maximum(x, a), clip(x, max=b) == minimum(x, b)
+            lo_k1 = next((k for k in ("a_min", "min", "min_val") if k in kws), None)
+            hi_k1 = next((k for k in ("a_max", "max", "max_val") if k in kws), None)
+            if len(args) == 1 and lo_k1:
+                return self._mkcall(fname.rsplit("clip", 1)[0] + "maximum", [args[0], kws[lo_k1]], {}, fdeps, fg, nondiff)
+            if len(args) == 1 and hi_k1:
+                return self._mkcall(fname.rsplit("clip", 1)[0] + "minimum", [args[0], kws[hi_k1]], {}, fdeps, fg, nondiff)
+        if short_ == "clip" and len(args) == 3 and not kws and any(a_.canon() == "None" for a_ in args[1:]):
+            if args[2].canon() == "None" and args[1].canon() != "None":
+                return self._mkcall(fname.rsplit("clip", 1)[0] + "maximum", [args[0], args[1]], {}, fdeps, fg, nondiff)
+            if args[1].canon() == "None" and args[2].canon() != "None":
+                return self._mkcall(fname.rsplit("clip", 1)[0] + "minimum", [args[0], args[2]], {}, fdeps, fg, nondiff)
         if short_ == "clip" and kws and len(args) <= 3:
             lo_k = next((k for k in ("a_min", "min", "min_val") if k in kws), None)
             hi_k = next((k for k in ("a_max", "max", "max_val") if k in kws), None)
